@@ -21,6 +21,9 @@ def check(repo: Repo, rep, tier):
     from .C14 import state_global
 
     state_global(repo, rep)
+    from .C19 import outer_compare
+
+    outer_compare(repo, rep)
 
 
 def _check(repo: Repo, rep, tier):
